@@ -10,12 +10,14 @@ mod c02;
 mod c03;
 mod c04;
 mod c05;
+mod c10;
 mod c11;
 mod c12;
 mod c13;
 mod cat;
 mod lex;
 mod selftest;
+mod sup;
 
 use serde_json::{json, Value};
 use std::time::Instant;
@@ -82,6 +84,7 @@ fn registry(property: &str) -> Option<(RunFn, ReplayFn)> {
         "C03" => Some((c03::run, c03::replay)),
         "C04" => Some((c04::run, c04::replay)),
         "C05" => Some((c05::run_c05, c05::replay_c05)),
+        "C10" => Some((c10::run, c10::replay)),
         "C11" => Some((c11::run, c11::replay)),
         "C12" => Some((c12::run, c12::replay)),
         "C13" => Some((c13::run, c13::replay)),
@@ -122,6 +125,7 @@ fn main() {
             let wall = t0.elapsed().as_secs_f64();
             let v = rep.to_json(&ctx, wall);
             std::fs::write(&out, serde_json::to_string_pretty(&v).unwrap()).expect("write partial report");
+            let infra = rep.extra.contains_key("infra_problem");
             eprintln!(
                 "[{} {} {}] evaluations={} distinct_nontrivial={} violations={} wall={:.1}s",
                 property,
@@ -132,6 +136,25 @@ fn main() {
                 rep.violations.len(),
                 wall
             );
+            if infra {
+                std::process::exit(3);
+            }
+        },
+        "worker" => {
+            let wa = sup::parse_worker_args(&args);
+            let ctx = make_ctx(&wa.property);
+            c10::init_worker(Some(&wa.shm), wa.skip);
+            let mut rep = Report::default();
+            let t0 = Instant::now();
+            match wa.property.as_str() {
+                "C10" => c10::run_worker(&ctx, &mut rep, wa.chunk, wa.nchunks),
+                other => {
+                    eprintln!("no worker for {other}");
+                    std::process::exit(2);
+                },
+            }
+            let v = rep.to_json(&ctx, t0.elapsed().as_secs_f64());
+            std::fs::write(&wa.out, serde_json::to_string(&v).unwrap()).expect("write worker report");
         },
         "replay" => {
             let file = args.get(2).expect("replay file");
